@@ -90,14 +90,40 @@ type config struct {
 	h          [3]int
 	kind       int
 	handlerOut bool
+	ctx        int  // how F1 calls F2: 0 plain, 1 in a 遍历 loop, 2 in a 每当 loop, 3 in a 如果 block
+	ext        bool // F2 lives in an imported module
 }
 
+func f2Source(c config) string {
+	return "如何F2？\n    输入D、K、Z\n    （显示：21）\n" + guard("    ", 2, 1, c.kind) + "    （显示：22）\n" + guard("    ", 2, 2, c.kind) + "    （显示：23）\n    输出 200\n" + handler("    ", c.h[2], 2, c.handlerOut)
+}
+
+func callF2(c config) string {
+	switch c.ctx {
+	case 1:
+		return "    令R2 = 0\n    以项遍历【7】：\n        令私有二 = 项\n        R2 = （F2：D、K、Z）\n"
+	case 2:
+		return "    令R2 = 0\n    令轮 = 0\n    每当 轮 == 0：\n        轮 = 1\n        令私有二 = 7\n        R2 = （F2：D、K、Z）\n"
+	case 3:
+		return "    令R2 = 0\n    如果 真：\n        令私有二 = 7\n        R2 = （F2：D、K、Z）\n"
+	}
+	return "    令R2 = （F2：D、K、Z）\n"
+}
+
+const probes = "如何探？\n    输出 私有\n    拦截异常：\n        输出 -5\n如何探二？\n    输出 私有二\n    拦截异常：\n        输出 -6\n如何探三？\n    输出 入参\n    拦截异常：\n        输出 -7\n"
+
 func source(c config) string {
-	s := "输入D、K、Z\n"
+	s := ""
+	if c.ext {
+		s += "导入“库”\n"
+	}
+	s += "输入D、K、Z\n" + probes
 	s += "定义甲异常：\n    其内容设为“”\n如何新建甲异常？\n    输入M\n    其内容 = M\n"
-	s += "如何F2？\n    （显示：21）\n" + guard("    ", 2, 1, c.kind) + "    （显示：22）\n" + guard("    ", 2, 2, c.kind) + "    （显示：23）\n    输出 200\n" + handler("    ", c.h[2], 2, c.handlerOut)
-	s += "如何F1？\n    令本地 = 11\n    （显示：本地）\n" + guard("    ", 1, 1, c.kind) + "    令R2 = （F2）\n    （显示：R2）\n    （显示：本地）\n" + guard("    ", 1, 2, c.kind) + "    （显示：13）\n    输出 100\n" + handler("    ", c.h[1], 1, c.handlerOut)
-	s += "令本地 = 1\n（显示：本地）\n" + guard("", 0, 1, c.kind) + "令R1 = （F1）\n（显示：R1）\n（显示：本地）\n" + guard("", 0, 2, c.kind) + "（显示：3）\n输出 5\n" + handler("", c.h[0], 0, c.handlerOut)
+	if !c.ext {
+		s += f2Source(c)
+	}
+	s += "如何F1？\n    输入入参\n    令本地 = 11\n    令私有 = 12\n    （显示：本地）\n" + guard("    ", 1, 1, c.kind) + callF2(c) + "    （显示：R2）\n    （显示：本地）\n" + guard("    ", 1, 2, c.kind) + "    （显示：13）\n    输出 100\n" + handler("    ", c.h[1], 1, c.handlerOut)
+	s += "令本地 = 1\n（显示：本地）\n" + guard("", 0, 1, c.kind) + "令R1 = （F1：31）\n（显示：R1）\n（显示：本地）\n" + guard("", 0, 2, c.kind) + "（显示：（探））\n（显示：（探二））\n（显示：（探三））\n（显示：3）\n输出 5\n" + handler("", c.h[0], 0, c.handlerOut)
 	return s
 }
 
@@ -196,7 +222,7 @@ func (t *twin) main() (val float64, isNull bool, uncaught bool) {
 		}
 		t.trace = append(t.trace, 1)
 		t.maybeRaise(0, 2)
-		t.trace = append(t.trace, 3)
+		t.trace = append(t.trace, -5, -6, -7, 3)
 		return 5
 	})
 	return
@@ -211,10 +237,24 @@ func execute(src string, in r.ElementMap) (res r.Element, err error, depth int, 
 		return nil, perr, -1, nil
 	}
 	vm := r.InitVM(exec.GlobalValues)
+	vm.SetModuleCodeFinder(func(isMain bool, info r.LibNameInfo) ([]rune, error) {
+		if isMain {
+			return []rune(src), nil
+		}
+		if info.LibType == r.LIB_TYPE_STD {
+			return []rune{}, nil
+		}
+		if info.OriginalName == "库" && libSource != "" {
+			return []rune(libSource), nil
+		}
+		return nil, fmt.Errorf("no such module")
+	})
 	res, err = exec.EvalMainModule(vm, program, in)
 	depth = len(vm.GetCallStack())
 	return
 }
+
+var libSource string
 
 // H_RaisePoints: three nested bodies, handlers at any subset of levels (class
 // matching or not), five raise kinds, the raise point (body D, statement K) is
@@ -240,13 +280,19 @@ func H_RaisePoints() {
 			kk = x
 		}
 	}
+	compare(c, r.ElementMap{"D": value.NewNumber(float64(d)), "K": value.NewNumber(float64(k)), "Z": value.NewNumber(0)}, dd, kk, "")
+}
+
+func compare(c config, in r.ElementMap, dd, kk int, tag string) {
 	src := source(c)
-	in := r.ElementMap{"D": value.NewNumber(float64(d)), "K": value.NewNumber(float64(k)), "Z": value.NewNumber(0)}
+	libSource = ""
+	if c.ext {
+		libSource = f2Source(c)
+	}
 	res, err, depth, p := execute(src, in)
 	t := &twin{c: c, d: dd, k: kk}
 	val, isNull, uncaught := t.main()
-	zv.Observe("config", fmt.Sprintf("handlers %d%d%d kind %d out %v raise %d/%d", c.h[0], c.h[1], c.h[2], c.kind, c.handlerOut, dd, kk))
-	tag := ""
+	zv.Observe("config", fmt.Sprintf("handlers %d%d%d kind %d out %v raise %d/%d ctx %d ext %v", c.h[0], c.h[1], c.h[2], c.kind, c.handlerOut, dd, kk, c.ctx, c.ext))
 	zv.Assert(p == nil, "no Go panic"+tag)
 	same := len(trace) == len(t.trace)
 	if same {
@@ -279,11 +325,46 @@ func H_RaisePoints() {
 	zv.Assert(depth == 0, "call depth is back to zero after the run"+tag)
 }
 
+// H_RaiseContexts: the call that fails (or not) is made from inside a loop or
+// a block, to a method of this module or of an imported one; besides the
+// statement trace, names declared by the finished bodies must be invisible to
+// the caller afterwards (probe methods) and the caller's own names intact.
+func H_RaiseContexts() {
+	var c config
+	c.h[0] = zv.Choose(2)
+	c.h[1] = zv.Choose(3)
+	c.h[2] = zv.Choose(2)
+	c.kind = zv.Choose(nRaiseKinds)
+	c.handlerOut = zv.Choose(2) == 0
+	c.ctx = zv.Choose(4)
+	c.ext = zv.Choose(2) == 1
+	if zv.Tier() == 0 && c.ctx == 0 && !c.ext {
+		return // H_RaisePoints covers the plain same-module call
+	}
+	if c.ext && c.kind == rThrowCustom {
+		return // the class 甲异常 is private to the main module
+	}
+	raisePoints := 3
+	if zv.Tier() == 1 {
+		raisePoints = 7
+	}
+	pt := zv.Int("P", 0, raisePoints-1)
+	points := [][2]int{{2, 1}, {2, 2}, {3, 1}, {1, 1}, {1, 2}, {0, 1}, {0, 2}}
+	dd, kk := 3, 1
+	for x := 0; x < raisePoints; x++ {
+		if pt == x {
+			dd, kk = points[x][0], points[x][1]
+		}
+	}
+	compare(c, r.ElementMap{"D": value.NewNumber(float64(dd)), "K": value.NewNumber(float64(kk)), "Z": value.NewNumber(0)}, dd, kk, "[contexts]")
+}
+
 // W_Witness: vacuity guard.
 func W_Witness() {
 	c := config{h: [3]int{hDefault, hNone, hNone}, kind: rThrowDefault, handlerOut: true}
 	d := zv.Int("D", 0, 3)
 	in := r.ElementMap{"D": value.NewNumber(float64(d)), "K": value.NewNumber(1), "Z": value.NewNumber(0)}
+	libSource = ""
 	res, _, _, _ := execute(source(c), in)
 	n, ok := res.(*value.Number)
 	zv.Assert(ok && n.GetValue() == 5, "witness")
